@@ -25,6 +25,7 @@ import (
 // C14 — status records are updated atomically w.r.t. every other reader and writer.
 
 type C14Plan struct {
+	Fresh  bool       `json:"fresh"`  // the record does not exist yet when the tasks start (first writes race on an empty file)
 	Procs  [][]string `json:"procs"`  // per simulated OS process: operations (inc, load, basic)
 	Daemon [][]string `json:"daemon"` // per daemon goroutine on one BaseWorkUnit: operations (inc, load, basic)
 	Shrink []string   `json:"_shrink"`
@@ -33,7 +34,12 @@ type C14Plan struct {
 func genC14(seed uint64, tier string) any {
 	r := simnet.NewRng(seed, "c14")
 	p := &C14Plan{Shrink: []string{"procs", "daemon"}}
+	p.Fresh = r.Bool(0.3)
 	np, nd := r.Range(1, 3), r.Range(0, 3)
+	if p.Fresh {
+		nd = 0 // the daemon's unit object always has a record behind it
+		np = r.Range(2, 3)
+	}
 	budget := 14
 	if tier == "thorough" {
 		budget = 24
@@ -200,6 +206,9 @@ func runC14(t *testing.T, planAny any, res *simnet.Result) {
 		return
 	}
 	statusReal := unit.StatusFileName()
+	if p.Fresh {
+		_ = os.Truncate(statusReal, 0)
+	}
 	sched := simwork.NewSched(res.Seed)
 	verifhook.SetStepHandler(sched.Step)
 	defer verifhook.SetStepHandler(nil)
@@ -245,7 +254,11 @@ func runC14(t *testing.T, planAny any, res *simnet.Result) {
 					}
 				default:
 					if err := sfd.Load(path); err != nil {
-						out.Err = err.Error()
+						if !(p.Fresh && strings.Contains(err.Error(), "unexpected end of JSON input")) {
+							out.Err = err.Error() // (an empty record that nobody has written yet does not parse; that is not a torn read)
+						} else {
+							out.Counts = map[string]int{}
+						}
 					} else {
 						out.Counts, out.Basic = counts(sfd.ExtraData), int(sfd.StdoutSize)
 					}
@@ -321,7 +334,14 @@ func runC14(t *testing.T, planAny any, res *simnet.Result) {
 	}
 	// final record == number of applied updates per owner
 	final := &workceptor.StatusFileData{}
-	if err := final.Load(statusReal); err != nil {
+	writes := basics
+	for _, v := range expected {
+		writes += v
+	}
+	if err := final.Load(statusReal); err != nil && p.Fresh && writes == 0 {
+		res.Add("probe_fresh_record_never_written", 1) // nothing wrote: the record is still empty, which is right
+		return
+	} else if err != nil {
 		res.Violate("c14:final-unreadable", "final record does not load: %v", err)
 	} else {
 		got := counts(final.ExtraData)
@@ -333,7 +353,7 @@ func runC14(t *testing.T, planAny any, res *simnet.Result) {
 		if int(final.StdoutSize) != basics {
 			res.Violate("c14:lost-update", "%d basic updates were applied, the final record says %d", basics, final.StdoutSize)
 		}
-		if final.WorkType != "inproc" {
+		if final.WorkType != "inproc" && !p.Fresh {
 			res.Violate("c14:field-wiped", "the work type written at creation was wiped: %q", final.WorkType)
 		}
 	}
